@@ -248,6 +248,17 @@ impl Args {
             // determine output escaping
             let escaping = self.global.output_escaping(Some(test.parser_type));
 
+            #[cfg(feature = "verif")]
+            scrut::verif::emit(
+                "DocStart",
+                &format!(
+                    "\"path\":{:?},\"n\":{},\"format\":\"{}\"",
+                    test.path.to_string_lossy(),
+                    testcases.len(),
+                    test.parser_type
+                ),
+            );
+
             // run all testcases from the file and gather output ..
             let outputs = executor.execute_all(
                 testcases.as_slice(),
@@ -432,6 +443,32 @@ impl Args {
             ScrutRenderer::Yaml => Box::<YamlRenderer>::default(),
         };
 
+        #[cfg(feature = "verif")]
+        for outcome in &outcomes {
+            scrut::verif::emit(
+                "Result",
+                &format!(
+                    "\"location\":{:?},\"title\":{:?},\"kind\":\"{}\"",
+                    outcome.location.clone().unwrap_or_default(),
+                    outcome.testcase.title,
+                    match &outcome.result {
+                        Ok(_) => "success",
+                        Err(TestCaseError::MalformedOutput(_)) => "malformed_output",
+                        Err(TestCaseError::InvalidExitCode { .. }) => "invalid_exit_code",
+                        Err(TestCaseError::InternalError(_)) => "internal_error",
+                        Err(TestCaseError::Timeout) => "timeout",
+                        Err(TestCaseError::Skipped) => "skipped",
+                    }
+                ),
+            );
+        }
+        #[cfg(feature = "verif")]
+        scrut::verif::emit(
+            "Counts",
+            &format!(
+                "\"success\":{count_success},\"skipped\":{count_skipped},\"failed\":{count_failed},\"detached\":{count_detached}"
+            ),
+        );
         info!(
             success = count_success,
             skipped = count_skipped,
